@@ -193,6 +193,78 @@ func (p *Prog) liftGuard(fn *ssa.Function, sink ssa.Instruction, safe func(condF
 	return rec(fn, sink, 0)
 }
 
+// withBoolSummaries extends a safe-edge predicate with guard functions: the
+// fact `F(args) == true` is safe when F is an in-package boolean function all
+// of whose `true` results are themselves implied by safe facts inside F.
+func (p *Prog) withBoolSummaries(safe func(condFact) bool) func(condFact) bool {
+	memo := map[*ssa.Function]int{}
+	var wrapped func(condFact) bool
+	var trueImplies func(fn *ssa.Function, v ssa.Value, at *ssa.BasicBlock, d int) bool
+	trueImplies = func(fn *ssa.Function, v ssa.Value, at *ssa.BasicBlock, d int) bool {
+		if d > 8 {
+			return false
+		}
+		switch x := v.(type) {
+		case *ssa.Const:
+			if x.Value != nil && x.Value.String() == "false" {
+				return true
+			}
+			return guardedBy(fn, at, wrapped)
+		case *ssa.Phi:
+			for i, e := range x.Edges {
+				if !trueImplies(fn, e, x.Block().Preds[i], d+1) {
+					return false
+				}
+			}
+			return true
+		}
+		return wrapped(condFact{V: v, Val: true}) || guardedBy(fn, at, wrapped)
+	}
+	wrapped = func(f condFact) bool {
+		if safe(f) {
+			return true
+		}
+		call, ok := f.V.(*ssa.Call)
+		if !ok || !f.Val {
+			return false
+		}
+		callee := staticCallee(call)
+		if callee == nil || callee.Blocks == nil || p.byName[fnKey(callee)] != callee {
+			return false
+		}
+		if r := callee.Signature.Results(); r.Len() != 1 || r.At(0).Type().String() != "bool" {
+			return false
+		}
+		switch memo[callee] {
+		case 1:
+			return true
+		case 2, 3:
+			return false
+		}
+		memo[callee] = 3 // in progress
+		good := true
+		for _, b := range callee.Blocks {
+			if b == callee.Recover {
+				continue
+			}
+			for _, in := range b.Instrs {
+				if r, ok := in.(*ssa.Return); ok {
+					if !trueImplies(callee, retVal(r, 0), b, 0) {
+						good = false
+					}
+				}
+			}
+		}
+		if good {
+			memo[callee] = 1
+		} else {
+			memo[callee] = 2
+		}
+		return good
+	}
+	return wrapped
+}
+
 // fieldGuard builds a safe-edge predicate: "load of struct field `fld` has value `want`".
 func fieldGuard(fld *types.Var, want bool) func(condFact) bool {
 	return func(f condFact) bool {
